@@ -31,17 +31,18 @@ const int kChkFail = 8;       // sol:chk:fail: documented result 150 when the so
 
 const int kRound = 7;         // mip:round=1..7 on the MIP model with a non-integral answer: rounding options must not touch the code
 
+const int kTable = 12;   // the -! table: 2 command lines x 6 sets of driver-specific result registrations
 uint64_t enumerated(const std::string&) {
-  return (uint64_t)kCodes * kPatterns * kModes + 4 + (uint64_t)kAbortCodes * kAbortSites * kModes + kChkFail + (uint64_t)kCodes * kRound;
+  return (uint64_t)kCodes * kPatterns * kModes + kTable + (uint64_t)kAbortCodes * kAbortSites * kModes + kChkFail + (uint64_t)kCodes * kRound;
 }
 
 sim::Json generate(const std::string& tier, uint64_t seed, uint64_t index) {
   (void)tier; (void)seed;
   uint64_t n = (uint64_t)kCodes * kPatterns * kModes;
   const uint64_t nab = (uint64_t)kAbortCodes * kAbortSites * kModes;
-  if (index >= n + 4 + nab + kChkFail + (uint64_t)kCodes * kRound) return sim::Json();   // finite space, enumerated completely
-  if (index >= n + 4 + nab + kChkFail) {    // every code under every mip:round value
-    uint64_t k = index - (n + 4 + nab + kChkFail);
+  if (index >= n + kTable + nab + kChkFail + (uint64_t)kCodes * kRound) return sim::Json();   // finite space, enumerated completely
+  if (index >= n + kTable + nab + kChkFail) {    // every code under every mip:round value
+    uint64_t k = index - (n + kTable + nab + kChkFail);
     int c = (int)(k % kCodes) - 200; int rnd = 1 + (int)(k / kCodes);
     sim::Json sc = base_scenario(tiny_mip_nl(), true);
     sc.ref("argv").push("alg:rays=3"); sc.ref("argv").push("alg:iisfind=1"); sc.ref("argv").push("alg:kappa=2"); sc.ref("argv").push("sol:chk:mode=0");
@@ -52,8 +53,8 @@ sim::Json generate(const std::string& tier, uint64_t seed, uint64_t index) {
     sc.set("code", c); sc.set("pattern", 7); sc.set("mode", 0); sc.set("round", rnd);
     return sc;
   }
-  if (index >= n + 4 + nab) {               // sol:chk:fail -> solve result 150 (documented with the option and in -!)
-    uint64_t k = index - (n + 4 + nab);
+  if (index >= n + kTable + nab) {               // sol:chk:fail -> solve result 150 (documented with the option and in -!)
+    uint64_t k = index - (n + kTable + nab);
     bool mip = k & 1; int mode = (k >> 1) & 1; bool violating = (k >> 2) & 1;
     sim::Json sc = base_scenario(mip ? tiny_mip_nl() : tiny_lp_nl(), mode == 0);
     if (mode == 1) sc.ref("argv").push("wantsol=1");
@@ -64,8 +65,8 @@ sim::Json generate(const std::string& tier, uint64_t seed, uint64_t index) {
     sc.set("chkfail", true); sc.set("violating", violating); sc.set("mode", mode); sc.set("code", violating ? 150 : 0);
     return sc;
   }
-  if (index >= n + 4) {                     // codes reported through Abort(code, msg)
-    uint64_t k = index - (n + 4);
+  if (index >= n + kTable) {                // codes reported through Abort(code, msg)
+    uint64_t k = index - (n + kTable);
     int c = (int)(k % kAbortCodes); k /= kAbortCodes;
     int site = (int)(k % kAbortSites); k /= kAbortSites;
     int mode = (int)k;
@@ -86,6 +87,17 @@ sim::Json generate(const std::string& tier, uint64_t seed, uint64_t index) {
     if ((index - n) & 1) argv.push("@/stub");
     sc.set("argv", argv);
     sc.set("table", true);
+    // driver-specific registrations on top of the documented ranges: new single codes, a new sub-range, a re-described code;
+    // with and without permission to replace
+    int variant = (int)((index - n) / 2);
+    sim::Json xr = sim::Json::array();
+    auto add = [&](int a, int b, const char* d) { sim::Json e = sim::Json::array(); e.push(a); e.push(b); e.push(d); xr.push(e); };
+    if (variant == 1 || variant == 2) { add(422, 422, "extra-limit-422"); add(491, 491, "extra-nosol-491"); add(202, 202, "extra-infeas-202"); add(77, 77, "extra-solved-77"); }
+    if (variant == 3) { add(501, 501, "redescribed-501"); add(333, 333, "extra-unbounded-333"); }
+    if (variant == 4 || variant == 5) { add(560, 569, "extra-range-560"); add(120, 129, "extra-range-120"); }
+    sc.ref("script").set("extra_results", xr);
+    sc.ref("script").set("extra_replace", variant == 2 || variant == 3 || variant == 4);
+    sc.set("variant", variant);
     return sc;
   }
   int c = (int)(index % kCodes) - 200; index /= kCodes;
@@ -138,9 +150,23 @@ void judge(const sim::Json& sc, const RunRecord& rec, sim::RunResult& r) {
         bool ok = false;
         for (auto& rg : kRanges) if (rg.lo == a && rg.hi == b) ok = true;
         if (a == 150 && b == 159) ok = true;   // documented sub-range "MP solution check failed"
+        for (auto& e : sc["script"]["extra_results"].arr()) if (e[(size_t)0].as_int() == a && e[(size_t)1].as_int() == b) ok = true;   // registered by the driver
         if (!ok) flag("TABLE_WRONG", "extra", "-! lists an undocumented range: " + l);
       }
     }
+    // everything the driver registered is listed, under its own code(s)
+    for (auto& e : sc["script"]["extra_results"].arr()) {
+      std::string d = e[(size_t)2].as_str();
+      if (d == "redescribed-501") continue;    // whether a re-registration replaces the text of an existing code is not documented
+      size_t p = rec.out.find(d);
+      if (p == std::string::npos) { flag("TABLE_WRONG", "registered-missing", "-! does not list the registered result '" + d + "'\n" + rec.out.substr(0, 1500)); continue; }
+      size_t ls = rec.out.rfind('\n', p); ls = ls == std::string::npos ? 0 : ls + 1;
+      int a = -1, b = -1;
+      std::string l = rec.out.substr(ls, p - ls);
+      if (sscanf(l.c_str(), " %d-%d", &a, &b) != 2) { sscanf(l.c_str(), " %d", &a); b = a; }
+      if (a != e[(size_t)0].as_int() || b != e[(size_t)1].as_int()) flag("TABLE_WRONG", "registered-moved", "registered result '" + d + "' is listed as " + l);
+    }
+    for (const char* d : {"fatal error 1", "AI iteration limit"}) if (rec.out.find(d) == std::string::npos) flag("TABLE_WRONG", "registered-missing", std::string("-! does not list the driver's result '") + d + "'");
     r.stats.set("table_runs", 1);
     r.trace_sig = sim::fnv1a(std::string("table"), r.trace_sig);
   } else if (sc["abort"].as_bool() || sc["chkfail"].as_bool()) {
